@@ -241,13 +241,15 @@ def needed_refs(seq):
 
 
 def PROOFS():
-    from ..contracts import call_resolver_c, transforms_c, variable_c, config_c, matrices_c   # noqa: F401
+    from ..contracts import call_resolver_c, transforms_c, variable_c, config_c, matrices_c, environment_c   # noqa: F401
     T = "formulae.transforms."
     return [("vf.contracts.call_resolver_c", ["formulae.terms.call_resolver.LazyCall.eval"]),
             # evaluating new data leaves the training object untouched and returns a fresh object (frame obligations)
             ("vf.contracts.matrices_c", ["formulae.matrices.CommonEffectsMatrix.evaluate_new_data", "formulae.matrices.GroupEffectsMatrix.evaluate_new_data",
                                          "formulae.matrices.CommonEffectsMatrix.evaluate", "formulae.matrices.GroupEffectsMatrix.evaluate"]),
-            ("vf.contracts.transforms_c", [T + "Center.__call__", T + "Scale.__call__", T + "BSpline.__call__", T + "Polynomial.__init__"]),
+            ("vf.contracts.transforms_c", [T + "Center.__call__", T + "Scale.__call__", T + "BSpline.__call__", T + "Polynomial.__init__",
+                                           T + "BSpline._initialize"]),       # (frame: the caller's knots / bounds are only read)
+            ("vf.contracts.environment_c", ["formulae.environment.Environment.with_outer_namespace", "formulae.environment.Environment.__init__"]),
             ("vf.contracts.variable_c", [f for f in variable_c.FUNCTIONS if f.endswith("eval_new_data_categoric")]), ("vf.contracts.config_c", config_c.FUNCTIONS),
             ("vf.contracts.design_c", ["formulae.matrices.design_matrices"])]
 
